@@ -16,7 +16,7 @@ CHECKS = {
     ),
     "C09": dict(
         technique="differential property-based testing against CPython's tokenize: generated programs, layout variants, corpus, and systematic lexical fragments (numbers, strings, all operator-token pairs/triples, indentation structures)",
-        text="Exploration: on every generated text CPython's tokenize accepts (no f-strings, no xonsh-only characters, no '@('), the significant token sequence must equal CPython's in kind, text and coordinates (structural tokens: kind at the same index). Operator pairs are enumerated exhaustively in the quick tier, triples in the thorough tier. Held except the listed findings D23, D24, D40, D41.",
+        text="Exploration: on every generated text CPython's tokenize accepts (no f-strings, no xonsh-only characters, no '@('), the significant token sequence must equal CPython's in kind, text and coordinates (structural tokens: kind at the same index). Operator pairs are enumerated exhaustively in the quick tier, triples in the thorough tier. Held except the listed findings D23, D24, D40.",
         note="Reference = tokenize.generate_tokens of the running CPython 3.12; reference tokens whose coordinates contradict their own text (a CPython bug after non-ASCII text) are excluded and counted.",
         ref="DESIGN.md §4 C09",
     ),
@@ -64,7 +64,7 @@ CHECKS = {
         ref="DESIGN.md §4 C16",
     ),
     "C17": dict(
-        technique="model-based differential testing of the parser generator: Hypothesis-drawn well-formed grammars are compiled through the shipped metagrammar parser and the xonsh generator, executed, and compared on ALL token strings up to a length bound with an independent reference PEG interpreter",
+        technique="model-based differential testing of the parser generator: Hypothesis-drawn well-formed grammars are compiled through the shipped metagrammar parser and the xonsh generator, executed, and compared on ALL token strings up to a length bound with an independent reference PEG interpreter, plus a metamorphic inlined-vs-uninlined comparison of the generator's own output",
         text="Exploration with exhaustive inputs per grammar: for each generated grammar every token string up to the bound is run through the generated parser and the reference interpreter (success/failure/forced error, end position, value). Held on everything generated after four generator fixes.",
         note="The reference interpreter (ordered choice, greedy repetition, cut, forced, keyword exclusion, seed-growing left recursion at pegen's documented SCC leader) is mine; values are compared modulo falsy-equivalence; grammars pegen rejects (GrammarError, no leadership candidate) are discarded and counted.",
         ref="DESIGN.md §4 C17",
@@ -76,13 +76,13 @@ CHECKS = {
         ref="DESIGN.md §4 C18",
     ),
     "C02": dict(
-        technique="differential testing against CPython's ast.parse on rejected inputs: exhaustive enumeration of short token sequences over a 40-token vocabulary, Hypothesis-drawn structured sequences, and single-token mutations / all token-aligned prefixes of valid programs",
-        text="Exploration with an exhaustive core: every sequence of <=3 (quick) / <=4 (thorough) vocabulary tokens, plus generated near-valid texts inside the Python lexicon; whenever ast.parse raises SyntaxError the parser must not return a tree. Held except listed findings D21 (TabError) and D40 (continuation-first lines).",
+        technique="differential testing against CPython's ast.parse on rejected inputs: exhaustive enumeration of short token sequences over a 40-token vocabulary, the complete single-token-edit neighbourhood of small valid statements, Hypothesis-drawn structured sequences, single-token mutations / all token-aligned prefixes of valid programs, f-string mutations",
+        text="Exploration with an exhaustive core: every sequence of <=3 (quick) / <=4 (thorough) vocabulary tokens, plus generated near-valid texts inside the Python lexicon; whenever ast.parse raises SyntaxError the parser must not return a tree. Held except listed findings D21 (TabError), D40 (continuation-first lines) and D46 (number glued to a non-keyword name).",
         note="Reference = ast.parse of the running CPython 3.12. Texts outside the Python lexicon are dropped by a regex and counted; the converse direction is C01.",
         ref="DESIGN.md §4 C02",
     ),
     "C03": dict(
-        technique="fuzzing and property-based testing for totality: Hypothesis character soup with dictionary fragments, token/line mutations and all token-aligned prefixes of Python and xonsh seeds, and coverage-guided atheris/libFuzzer campaigns (empty and seeded corpora) whose target runs the same oracle; failures bucketed by (exception type, innermost peg_parser frame), hangs confirmed in a fresh interpreter",
+        technique="fuzzing and property-based testing for totality: Hypothesis character soup with dictionary fragments, token/line mutations and all token-aligned prefixes of Python and xonsh seeds, construct-aware mutations of generated xonsh constructs/commands/macros, and coverage-guided atheris/libFuzzer campaigns (empty and seeded corpora) whose target runs the same oracle; failures bucketed by (exception type, innermost peg_parser frame), hangs confirmed in a fresh interpreter",
         text="Exploration: every generated input is pushed through generate_tokens, parse_string (exec and eval) and, for a fraction, parse_file, under a watchdog; the only allowed outcomes are a Module/Expression, SyntaxError or TokenError. Held on everything generated under the harness recursion limit; the default-limit behaviour is listed finding D22.",
         note="Soft 10 s watchdog, hang only if a fresh interpreter also exceeds 50 s. RecursionError counts only below 300 tokens under the raised limit. libFuzzer campaigns are only approximately reproducible; the saved input is the reproducible unit.",
         ref="DESIGN.md §4 C03",
@@ -112,7 +112,7 @@ CHECKS = {
         ref="DESIGN.md §4 C07",
     ),
     "C08": dict(
-        technique="property-based testing: generated and mutated texts (Hypothesis-driven grammar, corpus, mutation, soup) against a pure tiling oracle over (text, token list)",
+        technique="property-based testing: generated and mutated texts (Hypothesis-driven grammar, corpus, mutation, soup) and a coverage-guided atheris campaign, all against a pure tiling oracle over (text, token list)",
         text="Exploration: every generated text the tokenizer finishes on is checked against an oracle that needs nothing but the text and the token list (slice equality, order, gap shape, NEWLINE/INDENT/DEDENT/ENDMARKER structure). Held on everything generated; no proof.",
         note="Trusts my line-splitting convention (split on \\n only, as StringIO.readline). Inputs on which the tokenizer raises are outside the property; other exceptions are C03's.",
         ref="DESIGN.md §4 C08",
